@@ -235,6 +235,14 @@ def build_input(seed: int, opts: dict):
             if rec is not None and rec.id not in {r.id for r in recs}:
                 recs.append(rec)
                 case.meta['context_snv'] = case.meta.get('context_snv', 0) + 1
+        if opts.get('junction_mnv', 0) > 0:
+            for tx_id in anno.transcripts:
+                if rng.random() < opts['junction_mnv']:
+                    trip = gen_ref.junction_mnv(anno, genome, tx_id, rng)
+                    have = {r.id for r in recs}
+                    if len(trip) == 3 and not any(r.id in have for r in trip):
+                        recs += trip
+                        case.meta['junction_mnv'] = 1
         if opts.get('as_frac', 0) > 0:
             import random as _r
             from moPepGen import fake
@@ -317,6 +325,8 @@ def cv_worker(job):
             return out
         if case.meta.get('context_snv'):
             out['stats']['planted_cleavage_context_snv'] = 1
+        if case.meta.get('junction_mnv'):
+            out['stats']['junction_snv_pair_with_exon_deletion'] = 1
         if any(isinstance(v[5], tuple) for v in tx['vars']):
             out['stats']['with_nested_in_splicing_insertion'] = 1
         out['stats'][f'enzyme_{kw["cleavage_rule"]}'] = 1
